@@ -110,7 +110,47 @@ def _work(job):
     return n, len(mine), cases, fails, sample
 
 
+def pattern_world(shape):
+    """worlds too large for pairwise distinct labels: a position-dependent pattern without small periods"""
+    h, w = shape
+    labels = [d for d in U.LABELS_T if d[0] != 'Box']
+    return tuple(tuple(labels[(y * 7 + x * 3 + y // 5 + (x * y) % 11) % len(labels)] for x in range(w)) for y in range(h))
+
+
+BIG_WORLDS = [((3, 12), 1), ((2, 40), 1), ((9, 9), 1), ((12, 12), 5), ((1, 70), 1)]
+BIG_AREAS_FT = [((-1, 1), (-1, 1)), U.SHIPPED_AREA, ((-1, 0), (-3, 3)), ((-9, 0), (-5, 4)), ((-10, 0), (-5, 5)), ((-8, 0), (-6, 6)),
+                ((-2, 0), (-9, 9))]
+BIG_AREAS_OCCL = [((-1, 1), (-1, 1)), U.SHIPPED_AREA, ((-1, 0), (-3, 3))]
+
+
+def _big_work(job):
+    shape, stride, part, parts = job
+    rows = pattern_world(shape)
+    n = cases = 0
+    fails = []
+    H, W = shape
+    poses = [(y, x, h) for y in range(H) for x in range(W) if (y * W + x) % stride == 0 for h in 'FRBL']
+    for i, (y, x, h) in enumerate(poses):
+        if i % parts != part:
+            continue
+        s = (rows, y, x, h, NONE)
+        for name, areas in (('fully_transparent', BIG_AREAS_FT), ('raytracing', BIG_AREAS_OCCL), ('partially_occluded', BIG_AREAS_OCCL)):
+            for area in areas:
+                if not O.applicable(name, area):
+                    continue
+                k, m = judge(s, area, name, inplace=False)
+                n += k
+                cases += 1
+                if m and len(fails) < 2:
+                    fails.append({'kind': 'rot_big', 'shape': list(shape), 'pose': [y, x, h], 'area': area, 'name': name, 'message':
+                                  f'{shape[0]}x{shape[1]} pattern world, agent {(y, x, h)}: {m}', 'sig': {'fn': name, 'part': 'big_worlds'}})
+    return n, len(poses) // parts, cases, fails, None
+
+
 def replay(case):
+    if case['kind'] == 'rot_big':
+        y, x, h = case['pose']
+        return judge((pattern_world(tuple(case['shape'])), y, x, h, NONE), tup(case['area']), case['name'], inplace=False)[1]
     if case['kind'] == 'mutate':
         from . import c05
         return c05.judge_mutate(tup(case['s']), tup(case['area']), case['names'])[1]
@@ -139,7 +179,10 @@ def run(rep, tier, seed):
                   'functions': O.DET_FUNCS, 'rotations': '1, 2, 3 clockwise quarter turns'}
     tot = [0, 0, 0]
     fails = []
-    for n, states, cases, fl, sample in pmap(_work, jobs):
+    big_jobs = [(sh, stride, part, 8) for sh, stride in BIG_WORLDS for part in range(8)]
+    rep.bounds['big_worlds'] = {'worlds': [list(sh) for sh, _ in BIG_WORLDS], 'areas_fully_transparent': len(BIG_AREAS_FT),
+                                'areas_occluding': len(BIG_AREAS_OCCL), 'largest_view_cells': 121}
+    for n, states, cases, fl, sample in pmap(_big_work, big_jobs) + pmap(_work, jobs):
         tot[0] += n
         tot[1] += states
         tot[2] += cases
